@@ -82,6 +82,7 @@
  */
 #include "hcommon.h"
 #include <expat.h>
+#include <unistd.h>
 #include <zlib.h>
 
 #define NSLOT 32
@@ -599,6 +600,9 @@ int eng_own(FILE *in, FILE *rout)
         if (n > MAXTOK)
             BAD();
         if (strcmp(op, "case") == 0 && n == 1) {
+            /* watchdog: a pointer walk over a corrupted (cyclic) structure must end the process, not the
+               orchestrator's patience */
+            alarm(20);
             cleanup();
             bypass_count = 0;
             /* a leak of the previous case was reported at its `end`; start the next one balanced */
